@@ -486,6 +486,15 @@ def rnd_op(rng, idnt, weights=None):
         o = rnd_opts(rng) if rng.random() < 0.6 else None
         return ("ApplyPre", p, o, rng.random() < 0.2)
     if k == "FitModel":
+        if rng.random() < 0.07:
+            # one request that changes the pipeline AND carries a setting the
+            # fitter rejects: whatever is left must be one consistent state
+            bad = rng.choice([("range_type", "relative"),
+                              ("range_x", [float("nan"), 0]),
+                              ("x_axis", "no column"),
+                              ("model_key", "no_such_model")])
+            return ("FitModel", {"preprocessing": rnd_pipe(rng, 0.0),
+                                 bad[0]: bad[1]})
         kw = {}
         for _ in range(rng.choice([0, 0, 1, 1, 2, 3])):
             a, b = rnd_setting(rng, idnt)
